@@ -128,6 +128,11 @@ func genOut(r *rand.Rand, max int) []string {
 	return o
 }
 
+// genInput draws an echo-matched input: a body without the final byte, then a run of 1 (2/3 of the
+// cases) or 2-3 copies of a final byte that occurs nowhere else near it. A doubled final byte (show
+// vlan id 100) and doubled characters inside the body are what separates "every input byte found in
+// order" from "every distinct input byte found": a fuzzy matcher must not let one echoed byte stand
+// for a run.
 func genInput(r *rand.Rand, term byte) string {
 	l := r.Intn(16)
 	switch r.Intn(6) {
@@ -136,7 +141,60 @@ func genInput(r *rand.Rand, term byte) string {
 	case 1:
 		l = 30 + r.Intn(60)
 	}
-	return strings.TrimLeft(randStr(r, bodyAlpha, l), " ") + string(term)
+	body := strings.TrimLeft(randStr(r, bodyAlpha, l), " ")
+	if r.Intn(4) == 0 && len(body) > 0 {
+		// doubled characters in the body
+		var b strings.Builder
+		for i := 0; i < len(body); i++ {
+			b.WriteByte(body[i])
+			if r.Intn(3) == 0 {
+				b.WriteByte(body[i])
+				if r.Intn(4) == 0 {
+					b.WriteByte(body[i])
+				}
+			}
+		}
+		body = b.String()
+	}
+	run := 1
+	if r.Intn(3) == 0 {
+		run = 2 + r.Intn(2)
+	}
+	return body + strings.Repeat(string(term), run)
+}
+
+// termRun is the trailing run of copies of s's final byte.
+func termRun(s string) string {
+	i := len(s)
+	for i > 0 && s[i-1] == s[len(s)-1] {
+		i--
+	}
+	return s[i:]
+}
+
+// isSubseq reports whether every byte of in occurs in out, in order, each output byte used at most
+// once (the harness's own definition of a fuzzy echo match).
+func isSubseq(in, out string) bool {
+	j := 0
+	for i := 0; i < len(out) && j < len(in); i++ {
+		if out[i] == in[j] {
+			j++
+		}
+	}
+	return j == len(in)
+}
+
+// echoUnambiguous is the generator precondition for echo-matched inputs in its general form: for
+// every proper prefix p of the echo, the input is NOT a subsequence of stale+p (so a correct fuzzy
+// matcher can report the echo only when its last byte was delivered). stale is everything that can
+// still be unread ahead of the echo.
+func echoUnambiguous(input, stale string) bool {
+	for p := 0; p < len(input); p++ {
+		if isSubseq(input, stale+input[:p]) {
+			return false
+		}
+	}
+	return true
 }
 
 // respFamily returns dialogue text and the regexp an event expects, built around a token that is
@@ -181,14 +239,60 @@ func genCommon(r *rand.Rand, d *Desc) {
 
 func genCmd(r *rand.Rand, term byte, prompt string) Cmd {
 	c := Cmd{Text: genInput(r, term), Out: genOut(r, 3)}
-	if strings.HasSuffix(prompt, " ") && r.Intn(3) == 0 {
-		c.Hold = 1
+	if strings.HasSuffix(prompt, " ") && r.Intn(2) == 0 {
+		c.Hold = 1 // the blank after the prompt arrives only with the next command: stray bytes ahead of its echo
 	}
 	return c
 }
 
-// GenDialogue draws a dialogue (or, with plain=true, a plain-command) case.
+// GenDialogue draws a dialogue (or, with plain=true, a plain-command) case; candidates that fail the
+// echo precondition (checked by brute force) are resampled.
 func GenDialogue(r *rand.Rand, plain bool) Desc {
+	for {
+		d := genDialogueOnce(r, plain)
+		if d.echoesUnambiguous() {
+			return d
+		}
+	}
+}
+
+// echoesUnambiguous checks echoUnambiguous for every echo-matched input of the case (plain
+// commands; visible events with an expected response) against a superset of what can be unread
+// ahead of its echo: two prompts (initial prompt, prompt printed for a bare return) and the
+// device's whole reaction to the preceding line.
+func (d *Desc) echoesUnambiguous() bool {
+	base := d.Prompt + d.NL + d.Prompt
+	prev := ""
+	cmdReaction := func(c Cmd) string {
+		s := c.Text + d.NL + lines(c.Out, d.NL)
+		if !c.Eager {
+			s += d.Prompt
+		}
+		return s
+	}
+	for _, c := range d.Warm {
+		if !echoUnambiguous(c.Text, norm(base+prev)) {
+			return false
+		}
+		prev = cmdReaction(c)
+	}
+	for k := 0; k < d.Sent(); k++ {
+		e := d.Events[k]
+		if !e.Hidden && e.Resp != "" && !echoUnambiguous(e.Input, norm(base+prev)) {
+			return false
+		}
+		prev = d.reaction(k)
+	}
+	for _, c := range d.Post {
+		if !echoUnambiguous(c.Text, norm(base+prev)) {
+			return false
+		}
+		prev = cmdReaction(c)
+	}
+	return true
+}
+
+func genDialogueOnce(r *rand.Rand, plain bool) Desc {
 	d := Desc{Kind: "dialogue", Driver: "generic", API: "driver"}
 	genCommon(r, &d)
 	if r.Intn(5) == 0 {
@@ -241,7 +345,7 @@ func GenDialogue(r *rand.Rand, plain bool) Desc {
 		} else {
 			e.Input = genInput(r, term())
 			if r.Intn(3) == 0 {
-				e.Input = []string{"y", "n", "yes", "", "q"}[r.Intn(5)] + e.Input[len(e.Input)-1:]
+				e.Input = []string{"y", "n", "yes", "", "q", "nn", "yess"}[r.Intn(7)] + termRun(e.Input)
 			}
 		}
 		withResp := r.Intn(3) != 0
@@ -445,7 +549,15 @@ func GenEscalation(r *rand.Rand) Desc {
 			e.Rounds = append(e.Rounds, fail[r.Intn(2)])
 		}
 	}
-	e.Cmd = Cmd{Text: "show " + genInput(r, termChars[r.Intn(len(termChars))]), Out: genOut(r, 3)}
+	for {
+		e.Cmd = Cmd{Text: "show " + genInput(r, termChars[r.Intn(len(termChars))]), Out: genOut(r, 3)}
+		// echo precondition against a superset of what the escalation leaves unread
+		stale := d.Host + "#" + d.NL + d.Host + "(config)#" + d.NL + "configure terminal" + d.NL +
+			"Enter configuration commands, one per line." + d.NL + d.Host + "(config)#" + "enable" + e.PwText + "% Access denied" + d.Host + ">"
+		if echoUnambiguous(e.Cmd.Text, norm(stale)) {
+			break
+		}
+	}
 	d.Esc = e
 	return d
 }
